@@ -49,4 +49,5 @@ run C05 && mut C05 x/pairing/keeper/msg_server_relay_payment.go 'if relay.Epoch 
 run C15 && mut C15 x/timerstore/types/timer.go '		if value > tickValue {
 			// stop at first' '		if value >= tickValue {
 			// stop at first'
+run C18 && mut C18 x/pairing/keeper/msg_server_relay_payment.go 'relay.CuSum+badgeUsedCuMapEntry.UsedCu < badgeUsedCuMapEntry.UsedCu || ' ''
 exit 0
